@@ -237,13 +237,19 @@ def r11_5(ctx):
         if s.pick is not None:
             picks[id(s.pick["node"])] = s
     expect = {TASK: ("sort_task_list", None), WORKER: ("sort_worker_list", "worker_priority_rule"), FACILITY: ("sort_facility_list", "facility_priority_rule")}
-    from ..alloc import alloc_region
-    for g in alloc_region(ctx):
-        for n in ast.walk(g.node):
-            if isinstance(n, ast.For):
-                t = ctx.types.ftypes(g).type_of(n.iter)
-                if t and t[0] == "list" and t[1] == ("obj", WORKPLACE) and any(isinstance(c, ast.Call) and ast.unparse(c.func).endswith("set_placed_workplace") for c in ast.walk(n)):
-                    loops[id(n)] = type("L", (), {"node": n, "elem_cls": WORKPLACE, "loc": g.loc(n), "func": g})()
+    # the loop over candidate workplaces: the loop of the allocation trace whose body (helpers included) places a component
+    from ..alloc import alloc_trace, walk_alts
+    _f0, trace0, _I0 = alloc_trace(ctx)
+
+    def all_loops(tr):
+        for e in tr:
+            if isinstance(e, Loop):
+                yield e
+                for t2, _x in e.alts:
+                    yield from all_loops(t2)
+    for lp0 in all_loops(trace0):
+        if lp0.elem_cls == WORKPLACE and any(isinstance(e, Call) and e.callees and e.callees[0].endswith("set_placed_workplace") for t2, _x in lp0.alts for e in flatten(t2)):
+            loops[id(lp0.node)] = lp0
     expect[WORKPLACE] = ("sort_workplace_list", "workplace_priority_rule")
     seen = set()
     for lp in loops.values():
